@@ -260,8 +260,10 @@ pub fn run(prop: &str, tier: &str, replay: Option<&str>) -> i32 {
             // the format of what serialize_der hands out decides which loaders apply (PKCS#8-only loaders need PKCS#8)
             let a1 = if c.1.takes_alg() { Some(*alg) } else { None };
             let step = |entry: Entry, der: &[u8], a: Option<Alg>, f: &mut Vec<Finding>, stage: &str| -> Option<KeyPair> {
-                let want_ok = expected_kind_only(*fmt, entry);
-                match load(entry, der, *fmt, a) {
+                // whatever form the key was loaded from, what rcgen serialises is PKCS#8: every entry point must take it
+                let _ = fmt;
+                let want_ok = expected_kind_only(KeyFormat::Pkcs8, entry);
+                match load(entry, der, KeyFormat::Pkcs8, a) {
                     Err(p) => {
                         f.push(Finding::new("KEY-LOAD-PANIC", stage, p));
                         None
